@@ -319,7 +319,45 @@ func e3RunAll(run *h.Run, findingOf func(v e3Violation) string) []e3Result {
 				"time_or_random_imports": rep["time_or_random_imports"], "locations": lenOf(rep["instrumented_locations"])}
 		}
 	}
+	e3FreeRun(run)
 	return results
+}
+
+// e3FreeRun is the supplementary free-running pass: the same scenario bodies as plain goroutines
+// on the UNINSTRUMENTED package in a -race build. It can only add violations, never a pass.
+func e3FreeRun(run *h.Run) {
+	bin := os.Getenv("VERIF_RACE_BIN")
+	if bin == "" || freeruns[run.Prop] == nil {
+		run.Cov["free_running_race_pass"] = "not run"
+		return
+	}
+	iters := 60
+	if run.Tier == "thorough" {
+		iters = 1500
+	}
+	cmd := exec.Command(bin, "freerun", run.Prop, fmt.Sprint(iters))
+	cmd.Env = append(os.Environ(), "GORACE=halt_on_error=1")
+	out, err := cmd.CombinedOutput()
+	text := string(out)
+	run.Cov["free_running_race_pass"] = map[string]any{"iterations_per_scenario": iters, "data_race_reported": strings.Contains(text, "DATA RACE")}
+	if strings.Contains(text, "DATA RACE") {
+		i := strings.Index(text, "WARNING: DATA RACE")
+		msg := text[i:]
+		var lines []string
+		for _, l := range strings.Split(msg, "\n") {
+			l = strings.TrimSpace(l)
+			if strings.HasPrefix(l, "github.com/emicklei/go-restful") || strings.HasPrefix(l, "Write at") || strings.HasPrefix(l, "Read at") || strings.HasPrefix(l, "Previous") {
+				lines = append(lines, l)
+			}
+			if len(lines) >= 8 {
+				break
+			}
+		}
+		run.Violate("race(free-running)", "", "Go race detector on the uninstrumented package: "+strings.Join(lines, " | "),
+			map[string]any{"reproduce": fmt.Sprintf("go build -race -o /tmp/vr ./cmd/vcheck && GORACE=halt_on_error=1 /tmp/vr freerun %s %d", run.Prop, iters), "report": tailStr(msg, 6000)}, nil)
+	} else if err != nil {
+		run.Broken(fmt.Sprintf("free-running pass failed: %v: %s", err, tailStr(text, 1500)))
+	}
 }
 
 func lenOf(v any) int {
@@ -364,6 +402,7 @@ func e3Replay(prop string) replayFn {
 }
 
 func init() {
+	pt = vsched.Pt
 	subcommands["e3worker"] = func(args []string) {
 		var idx, budget int
 		fmt.Sscan(args[2], &idx)
